@@ -5,7 +5,7 @@
 From Coq Require Import String ZArith QArith Bool Arith List.
 Import ListNotations.
 From FV.C13 Require Import Model.
-From FV.C14 Require Import Model Prog.
+From FV.C14 Require Import Model Proofs Gather Prog.
 From FV.C14.gen Require Import E2NProg.
 Open Scope nat_scope.
 
@@ -47,6 +47,7 @@ Definition run_call (use_prog : bool) (m : mesh) (q : callq) : option (list (lis
 
 Inductive xquery :=
 | XN2E (data : list (list Q)) (w : nat)
+| XGATHER (data : list (list Q)) (w : nat)   (* calc_average=False (ravel or not): rows flattened *)
 | XCALL (c : callq).
 
 (* failing query indices: k = the hand model differs from the implementation,
@@ -58,7 +59,12 @@ Definition check_xcase (m : mesh) (eids : list Z) (qs : list (xquery * Q * optio
     flat_map (fun kq : nat * (xquery * Q * option (list (list Q))) =>
                 let '(k, (q, tol, r)) := kq in
                 match q with
-                | XN2E data w => if res_close tol (n2e QOps m data w) r then [] else [k]
+                | XN2E data w =>
+                    (* the averaged conversion, and the column mean of the gather (Gather.v) *)
+                    if res_close tol (n2e QOps m data w) r &&
+                       res_close tol (option_map (map (mean_rows QOps w)) (n2e_gather QOps m data w)) r
+                    then [] else [k]
+                | XGATHER data w => if res_close tol (n2e_ravel QOps m data w) r then [] else [k]
                 | XCALL c =>
                     ((if res_close tol (run_call false m c) r then [] else [k]) ++
                      (if res_close tol (run_call true m c) r then [] else [1000 + k]))%list
